@@ -109,11 +109,15 @@ class SymBool:
         return _c().branch(self.t)
 
     def __and__(self, o):
+        if getattr(o, "_q_kind", None):
+            return NotImplemented       # let the quantified operand keep its structure
         return mk_bool(z3.And(self.t, to_z3_bool(o)))
 
     __rand__ = __and__
 
     def __or__(self, o):
+        if getattr(o, "_q_kind", None):
+            return NotImplemented
         return mk_bool(z3.Or(self.t, to_z3_bool(o)))
 
     __ror__ = __or__
